@@ -129,7 +129,8 @@ CHECKS = {
              "start + ceil(S_k/q) from a start); error in [0,q) independent of k (no drift); tick depends on the ideal time alone "
              "(rounding never accumulates); nudge shifts every later ideal time by exactly x. Correspondence incl. long runs.",
         design="DESIGN.md §3 C01",
-        note=SCHED_NOTE + " The theorems are about the clock part of Track.tick (pull loop + time increment); the float "
+        note=SCHED_NOTE + " The closed form is proved for the clock part of Track.tick (pull loop + time increment); solo_clock "
+             "and C07.non_interference tie it to the track as it evolves inside a timeline tick (tracks without callbacks); the float "
              "accumulation of the implementation is outside the model and shows only in the long correspondence runs "
              "(known finding C01-float-drift).",
         technique="Lean 4 induction (onset invariant) + closed-form oracle in exact rationals + differential correspondence"),
